@@ -702,6 +702,10 @@ fn s_c04_contract(t: Tier) -> BoxedStrategy<crate::contract::RawCase> {
     use proptest::strategy::Strategy;
     crate::contract::raw_case_strategy(if t == Tier::Quick { 30 } else { 40 }, 1).boxed()
 }
+fn ev_after_failure(c: &crate::scenario::ValidCase) -> Outcome {
+    // a muxer with a healthy sink must not panic because ANOTHER muxer's sink failed or panicked earlier on the thread
+    panics_only("C17.after_a_failed_muxer", crate::props::c17::eval_after_failure(c))
+}
 fn ev_long(c: &crate::scenario::ValidCase) -> Outcome {
     panics_only("long_recordings", crate::props::c01::eval(c))
 }
@@ -748,6 +752,7 @@ pub fn def() -> PropertyDef {
             Box::new(PSub { name: "borrowed_c07_init", quick: 6000, thorough: 150000, strat: crate::props::c07::s_init, eval: ev_c07_init }),
             Box::new(PSub { name: "borrowed_c18_metadata", quick: 6000, thorough: 150000, strat: crate::props::c18::meta_strategy, eval: ev_c18_meta }),
             Box::new(PSub { name: "borrowed_c04_contract", quick: 40000, thorough: 1000000, strat: s_c04_contract, eval: ev_c04_contract }),
+            Box::new(LSub { name: "borrowed_c17_after_failure", cases: crate::props::c17::after_failure_cases, eval: ev_after_failure, note: "C17's after_a_failed_muxer cases (sink failing or panicking at every write call, then further recordings on the thread), judged for panics of the later, healthy muxers only" }),
             Box::new(LSub { name: "long_recordings", cases: crate::scenario::long_cases_all, eval: ev_long, note: crate::scenario::LONG_NOTE }),
             Box::new(LSub { name: "four_gib_limit", cases: limit_cases, eval: ev_limit, note: "C16's four_gib_limit cases (payload ending just below 2^32 bytes), judged for panics and overflow only" }),
         ],
